@@ -118,8 +118,10 @@ TEMPLATES = [
     ("machine.a and machine.b", {"a", "b"}),
     ("(machine.a, machine.b)[0] - machine.b", {"a", "b"}),
     ("settings.s2 + machine.a", {"s2", "a"}),
+    ("machine.a + machine.u", {"a", "u"}),          # u is unset (None) at first: the operands are type-incompatible until u gets a value
+    ("machine.u * 2 > machine.a", {"a", "u"}),
 ]
-CHANGES = ["a", "b", "c", "s1", "c1.value", "c1.enabled", "s2"]
+CHANGES = ["a", "b", "c", "s1", "c1.value", "c1.enabled", "s2", "u"]
 
 
 def body_subscribe(S, t, part):
@@ -129,6 +131,8 @@ def body_subscribe(S, t, part):
     c1 = m.counters["c1"]
     a0 = S.int("a0", -5, 5)
     m.variables.set_machine_var("a", a0)
+    if m.variables.is_machine_var("u"):
+        m.variables.remove_machine_var("u")         # unset at the start of every path
     if S.bool("c1_enabled_at_start"):
         m.events.post("c1_enable")
     t.advance_time_and_run(0.01)
@@ -137,19 +141,33 @@ def body_subscribe(S, t, part):
         a, b = m.variables.get_machine_var("a"), m.variables.get_machine_var("b")
         s1 = m.settings.get_setting_value("s1")
         s2 = m.settings.get_setting_value("s2")
+        u = m.variables.get_machine_var("u")
+        if part["template"] in (7, 8):
+            try:
+                return a + u if part["template"] == 7 else u * 2 > a
+            except TypeError:
+                return tpl.default_value
         return {6: lambda: s2 + a, 0: lambda: a + 1, 1: lambda: a > c1.value, 2: lambda: s1 * 2 + a, 3: lambda: a if c1.enabled else b,
                 4: lambda: a and b, 5: lambda: (a, b)[0] - b}[part["template"]]()
     tpl = pm.build_raw_template(src)
     val, fut = tpl.evaluate_and_subscribe({})
     if val != py_value():
         raise Violation("evaluates-like-python", "evaluate_and_subscribe", "%s = %r, Python %r" % (src, val, py_value()))
-    if reads is None:
-        reads = {"a", "c1.enabled"} if c1.enabled else {"b", "c1.enabled"}
+    static_reads = reads
+
+    def reads_now():
+        """what the last evaluation read (Python's evaluation order: an operand that fails ends the evaluation)"""
+        if part["template"] == 3:
+            return {"a", "c1.enabled"} if c1.enabled else {"b", "c1.enabled"}
+        if part["template"] == 8 and m.variables.get_machine_var("u") is None:
+            return {"u"}                    # None * 2 fails before machine.a is looked at
+        return static_reads
+    reads = reads_now()
     for step in range(part["changes"]):
         what = CHANGES[S.choice("change%d" % step, len(CHANGES))]
         newv = S.int("new%d" % step, -5, 5)
         changed = False
-        if what in ("a", "b", "c"):
+        if what in ("a", "b", "c", "u"):
             changed = m.variables.get_machine_var(what) != newv
             m.variables.set_machine_var(what, newv)
         elif what in ("s1", "s2"):
@@ -168,15 +186,14 @@ def body_subscribe(S, t, part):
             changed = bool(c1.enabled) != before
         t.advance_time_and_run(0.01)
         if changed and what in reads and not fut.done():
-            raise Violation("subscriber-notified-after-change-of-read-input", {"a": "MachinePlaceholder.subscribe_attribute", "b": "MachinePlaceholder.subscribe_attribute",
+            raise Violation("subscriber-notified-after-change-of-read-input", {"a": "MachinePlaceholder.subscribe_attribute", "b": "MachinePlaceholder.subscribe_attribute", "u": "_eval_bin_op",
                                                                               "s1": "SettingsPlaceholder.subscribe_attribute", "s2": "SettingsPlaceholder.subscribe_attribute", "c1.value": "DeviceMonitor.__setattr__",
                                                                               "c1.enabled": "DeviceMonitor.__setattr__"}.get(what, "subscribe"),
                             "%s: input %s changed but the subscription future is not done" % (src, what))
         val, fut = tpl.evaluate_and_subscribe({})
         if val != py_value():
             raise Violation("never-acts-on-stale-value", "evaluate_and_subscribe", "%s after change of %s = %r, Python %r" % (src, what, val, py_value()))
-        if TEMPLATES[part["template"]][1] is None:
-            reads = {"a", "c1.enabled"} if c1.enabled else {"b", "c1.enabled"}
+        reads = reads_now()
     # conditional handler: fires iff the condition holds on the current values
     # (an earlier handler of the same post changes the value the condition reads: the condition counts when the handler's turn comes)
     fired = []
